@@ -5,6 +5,6 @@ MODELS = ["Transfer", "Constants"]
 STREAMS = [transfer.stream_load_transfer, transfer.stream_disp_transfer]
 ORACLES = [c12.oracle_consistency, c12.oracle_solver_independence, c12.oracle_multipoint, c12.oracle_stiff_limit]
 UNPROVED = ["that the aerostructural coupling map of a given configuration IS a contraction (the quantifier restricts to convergent couplings); uniqueness and the tolerance bound are proved under that hypothesis",
-            "the coupled group is the composition of component models already tied to the code one by one (C01/C05/C10/C11 streams); its wiring is checked on the implementation by recomputing each discipline separately from the other's converged output",
+            "the coupled group is the composition of component models already tied to the code one by one (C01/C05/C10/C11 streams); its wiring is checked on the implementation by recomputing each discipline separately from the other's converged output; that every feedback connection lies inside the group the nonlinear solver iterates is a theorem on the regenerated data-flow graphs (C12_all_feedback_is_inside_the_coupled_group)",
             "convergence and accuracy of OpenMDAO's nonlinear and linear solvers themselves are runtime truths: exercised (block Gauss-Seidel with / without Aitken, Newton with Direct / LinearBlockGS / ScipyKrylov), non-convergence is recorded as outside the quantifier"]
 ASSUMPTIONS = ["user scripts connect load_factor to <point>.coupled.load_factor when weight relief / fuel / point masses are used, as the package's examples do (the coupled group exposes it as a separate promoted input)"]
